@@ -286,6 +286,11 @@ func convSetup() {
 		}
 		return []any{len(a)}
 	})
+	// a function whose result is a nil slice (a filter with no match): an empty array, as a nil slice in the data is
+	textwire.RegisterArrFunc("none", func(a []any, args ...any) []any {
+		var out []any
+		return out
+	})
 	// a function that works in place and returns the very slice it was given (sorting, filling, mapping): the result is
 	// that slice's content when the function returns
 	textwire.RegisterArrFunc("inplace", func(a []any, args ...any) []any {
@@ -345,6 +350,16 @@ func convFamily(raw json.RawMessage) Result {
 			res.Status, res.Kind = "viol", "argument-conversion"
 			res.Msg = fmt.Sprintf("after a custom function wrote into the slices it had received: output %q (err %v), the next function received %s %v", out, err, convLog.recv, convLog.args)
 			return res
+		}
+		{
+			const probe = "{{ %s.len() }}|{{ %s ? \"T\" : \"F\" }}|@each(x in %s)x@else-e@end|{{ %s.join(\"-\") }}|{{ %s.append(1) }}"
+			viaFn, ferr := textwire.EvaluateString(fmt.Sprintf(probe, "r.none()", "r.none()", "r.none()", "r.none()", "r.none()"), map[string]any{"r": []any{1, 2}})
+			viaData, derr := textwire.EvaluateString(fmt.Sprintf(probe, "d", "d", "d", "d", "d"), map[string]any{"d": []any(nil)})
+			if ferr != nil || derr != nil || viaFn != viaData || viaFn != "0|T|-e||1" {
+				res.Status, res.Kind = "viol", "result-conversion"
+				res.Msg = fmt.Sprintf("a custom function returned a nil slice: the template sees %q (err %v); the same value passed as data gives %q (err %v); want \"0|T|-e||1\"", viaFn, ferr, viaData, derr)
+				return res
+			}
 		}
 		xs := []any{3, 1, 2, 5}
 		for _, c := range []struct {
